@@ -523,6 +523,29 @@ class Temporal:
 
 
 @dataclass
+class RenA:
+    """Models whose fields are RENAMED by metadata (python name != element / attribute name), chosen through a union / best match."""
+
+    full_name: str = field(default="", metadata={"type": "Element", "name": "FullName"})
+    kind: Optional[str] = field(default=None, metadata={"type": "Attribute", "name": "Kind"})
+
+
+@dataclass
+class RenB:
+    item_count: int = field(default=0, metadata={"type": "Element", "name": "Count"})
+    kind: Optional[str] = field(default=None, metadata={"type": "Attribute", "name": "Kind"})
+
+
+@dataclass
+class RenamedUnion:
+    class Meta:
+        name = "ru"
+
+    item: Optional[Union[RenA, RenB]] = field(default=None, metadata={"type": "Element"})
+    items: List[Union[RenA, RenB]] = field(default_factory=list, metadata={"type": "Element", "name": "it"})
+
+
+@dataclass
 class BoxA:
     inner: Optional[Child] = field(default=None, metadata={"type": "Element"})
     label: Optional[str] = field(default=None, metadata={"type": "Element"})
@@ -548,7 +571,7 @@ class UnionBoxes:
 
 
 ALL_MODELS = [Basic, TextAttr, TextStr, ReqText, Lists, TokenLists, Frozen, Nillable, NilChild, NilParent, Child, ParentA, ParentB, NsAttr, Unqualified,
-              Sequential, Wrapped, Formats, Unions, Enums, QNames, Alpha, Compound, CompoundSingle, Base, Derived, Sibling, DerivedNest, DerivedB, Dup, Numeric, Textual, UnionModels, NsAttrParent, ShapeBase, CircleV1, CircleV2, ShapeHolder, Family, Holder,
+              Sequential, Wrapped, Formats, Unions, Enums, QNames, Alpha, Compound, CompoundSingle, Base, Derived, Sibling, DerivedNest, DerivedB, Dup, Numeric, Textual, UnionModels, RenA, RenB, RenamedUnion, NsAttrParent, ShapeBase, CircleV1, CircleV2, ShapeHolder, Family, Holder,
               Wild, WildList, Mixed, AnyTyped, Defaults, Temporal]
 
 
